@@ -29,6 +29,13 @@ CLAIMED.update({
    note="page contents and page-size divisibility not decided; 13 unchecked Sends of the CP control middleware recorded as known findings"),
 })
 
+CLAIMED.update({
+ "C20": dict(
+   text="Structural clauses of the trace-driven NVIDIA pipeline, one table row per hierarchy level (sub-core, SM, GPU, driver): back-pressure discipline at dispatch and report sites, completion propagation (decrement, ==0 test, finished counter, unit returned to the free list by the ID in the message), zero-work completion at every load site, conservation at load and dispatch sites. Parse round-trip of traces is value level and is not decided.",
+   ref="4/C20", technique="SSA path analysis (SEND-DISCIPLINE), dominance cuts on counter==0 (GUARD), value provenance (PAIR/FIELDS), table of sibling levels",
+   note="trace parsing and instruction counts as numbers not decided; three zero-work defects found by R20.3 were repaired by a fix: commit"),
+})
+
 PENDING = {}
 
 NOT_APPLICABLE = {
